@@ -181,7 +181,7 @@ def run_case(case):
                 diff_choice |= d
             va, vb = np.asarray(got["value"][t], float), np.asarray(base["value"][t][ids], float)
             with np.errstate(all="ignore"):
-                vd = ~((np.abs(va - vb) <= 1e-12 * (1 + np.abs(vb))) | (va == vb) | (np.isnan(va) & np.isnan(vb)))
+                vd = ~(((np.abs(va - vb) <= 1e-12 * (1 + np.abs(vb))) & np.isfinite(va) & np.isfinite(vb)) | (va == vb) | (np.isnan(va) & np.isnan(vb)))
             add("c08_agent_paths_compared", int(agree.sum()))
             bad = agree & (diff_choice | vd)
             if bad.any():
